@@ -77,9 +77,9 @@ func init() {
 		Required:  []string{"compaction", "crash-reached", "crash-in-compaction", "clear", "restart", "tmp-left-behind", "stash", "settings"},
 		Bound: func(tier string) string {
 			if tier == engine.Thorough {
-				return "L=3: all histories of length <=5 over 15 ops x 2 modes, every crash point of the last op for every one of them; L=10: 8..13 adds then all op sequences of length <=3, x 2 modes + every crash point; stash histories <=5 (crash points for <=2); settings histories <=5 incl. restarts (several sessions), crash points for <=3"
+				return "L=3: all histories of length <=5 over 15 ops x 2 modes, every crash point of the last op for every one of them; L=10: 8..13 adds then all op sequences of length <=3, x 2 modes + every crash point; L=20: 19..25 adds then all op sequences of length <=2 likewise; stash histories <=5 (crash points for <=2); settings histories <=5 incl. restarts (several sessions), crash points for <=3"
 			}
-			return "L=3: all histories of length <=4 over 15 ops x 2 modes, every crash point of the last op for every one of them; L=10: 9..11 adds then all op sequences of length <=2, x 2 modes + every crash point; stash histories <=4 (crash points for <=2); settings histories <=4 incl. restarts (several sessions), crash points for <=3"
+			return "L=3: all histories of length <=4 over 15 ops x 2 modes, every crash point of the last op for every one of them; L=10: 9..11 adds then all op sequences of length <=2, x 2 modes + every crash point; L=20: 21..23 adds then all op sequences of length <=2 likewise; stash histories <=4 (crash points for <=2); settings histories <=4 incl. restarts (several sessions), crash points for <=3"
 		},
 	})
 }
@@ -142,6 +142,23 @@ func enumerate(tier string, emit func(string)) {
 			}
 			for k := 1; k <= 14; k++ {
 				emit((&spec{K: "hist", L: 10, Pre: pre, Ops: h, Mode: "n", Crash: k}).String())
+			}
+		})
+	}
+	// --- history, L=20 (max 22): the plain append path is used again AFTER a compaction (with L <= 19 every Add at the
+	// limit compacts), so whatever an Add keeps between calls (an open handle, a cached offset) meets the renamed file
+	pres20 := []int{21, 22, 23}
+	depth20 := 2
+	if thorough {
+		pres20 = []int{19, 20, 21, 22, 23, 24, 25}
+	}
+	for _, pre := range pres20 {
+		seqs(ops, depth20, func(h []string) {
+			for _, mode := range []string{"n", "r"} {
+				emit((&spec{K: "hist", L: 20, Pre: pre, Ops: h, Mode: mode}).String())
+			}
+			for k := 1; k <= 14; k++ {
+				emit((&spec{K: "hist", L: 20, Pre: pre, Ops: h, Mode: "n", Crash: k}).String())
 			}
 		})
 	}
